@@ -48,12 +48,16 @@ type panicClient struct {
 	fn     string
 	seen   map[string]int
 	used   map[string]bool
-	inline map[*types.Func]bool // helpers interpreted in place (second pass: obligations decided in their callers' contexts)
-	failed map[*ast.FuncDecl]bool
+	inline  map[*types.Func]bool // helpers interpreted in place (second pass: obligations decided in their callers' contexts)
+	entered map[*ast.FuncDecl]int
+	failed  map[*ast.FuncDecl]bool
 }
 
 // Inline: in the second pass, helpers whose own obligations could not be decided are interpreted at their call sites.
 func (c *panicClient) Inline(e *Engine, call *ast.CallExpr, callee *types.Func, decl *ast.FuncDecl) bool {
+	if c.inline[callee] && c.entered != nil {
+		c.entered[decl]++
+	}
 	return c.inline[callee]
 }
 
@@ -78,6 +82,9 @@ func (c *panicClient) PreCall(e *Engine, st *State, call *ast.CallExpr, _ *types
 	dead, why := c.p.explicitPanicDead(c.p.PkgOf(call.Pos()), e.CurFunc(), call)
 	e.Site("C12/panic", key, call, dead, why)
 	if !dead {
+		if c.failed != nil {
+			c.failed[e.CurFunc()] = true
+		}
 		e.Site("C12/panic", key, call, false, "an explicit panic is reachable: "+why)
 	}
 	return nil
@@ -142,16 +149,29 @@ func (c *panicClient) Visit(e *Engine, st *State, n ast.Node) *State {
 		c.report(e, x, ok, how)
 	case *ast.SliceExpr:
 		rx := &ast.SliceExpr{X: x.X, Lbrack: x.Lbrack, Low: e.ResolveDeep(x.Low), High: e.ResolveDeep(x.High), Max: x.Max, Slice3: x.Slice3, Rbrack: x.Rbrack}
+		// s[a:len(s)] is s[a:]
+		if call, ok := ast.Unparen(rx.High).(*ast.CallExpr); ok && IsBuiltinCall(info, call, "len") && len(call.Args) == 1 {
+			ka, kb := e.CanonSt(st, call.Args[0]), e.CanonSt(st, x.X)
+			if ka.OK && kb.OK && ka.Key == kb.Key {
+				rx.High = nil
+			}
+		}
+		if tv, ok := info.Types[x]; ok {
+			info.Types[rx] = tv
+		}
 		ok, how := c.dischargeSlice(e, st, rx)
-		c.report(e, x, ok, how)
+		c.reportAs(e, x, rx, ok, how)
 	}
 	return nil
 }
 
-func (c *panicClient) report(e *Engine, x ast.Expr, ok bool, how string) {
+func (c *panicClient) report(e *Engine, x ast.Expr, ok bool, how string) { c.reportAs(e, x, x, ok, how) }
+
+// reportAs records the verdict for x; keyed (for the reviewed table) by its simplified form.
+func (c *panicClient) reportAs(e *Engine, x, simplified ast.Expr, ok bool, how string) {
 	site := c.where(e) + " " + exprStr(x)
 	if !ok {
-		k := c.key(e, x)
+		k := c.key(e, simplified)
 		if os.Getenv("PQLCHECK_DEBUG_KEYS") != "" {
 			fmt.Fprintf(os.Stderr, "C12KEY\t%s|%s\t%s\n", c.fn, exprStr(x), k)
 		}
@@ -451,14 +471,13 @@ func ruleC12Panic(p *Program, r *Run) {
 			}
 			u2 := &unit{pkg: u.pkg, fd: u.fd, fn: u.fn}
 			failed2 := map[*ast.FuncDecl]bool{}
-			c := &panicClient{p: p, pkg: u.pkg, fn: u.fn, used: used, inline: inline, failed: failed2}
+			c := &panicClient{p: p, pkg: u.pkg, fn: u.fn, used: used, inline: inline, failed: failed2, entered: reached}
 			e := NewEngine(p, u.pkg, u.fd, c)
 			e.Run(nil)
 			u2.sites = e.Sites()
 			for _, s := range u2.sites {
 				if h := p.FuncAt(s.Node.Pos()); h != nil && h != u.fd {
 					ctxSites[h] = append(ctxSites[h], s)
-					reached[h]++
 				}
 			}
 			for _, m := range e.Errs {
